@@ -15,7 +15,7 @@
          L = [k |-> "nonzero"] | [k |-> "incl", a |-> m]      H = [k |-> "unb"] | [k |-> "incl", a |-> m]
          A = [k |-> "any"] | [k |-> "list", ids |-> S]
    Balances:  [kind |-> "f", a |-> m] (a fungible amount)    [kind |-> "nf", ids |-> S] (a set of ids)   *)
-EXTENDS Integers, FiniteSets
+EXTENDS Integers, FiniteSets, Sequences
 
 Whole == 4
 Atto  == 1
@@ -45,6 +45,16 @@ Sat(c, b) ==
 SatAll(cs, bal, only) ==
   /\ only => \A r \in (DOMAIN bal) \ (DOMAIN cs) : Amt(bal[r]) = 0
   /\ \A r \in DOMAIN cs : Sat(cs[r], bal[r])
+
+\* What an invocation returns is a SEQUENCE of buckets [r |-> resource, bal |-> balance]; assertions on returned resources
+\* (ASSERT_NEXT_CALL_RETURNS_*) speak about the aggregate per resource: amounts add up, id sets unite
+\* (AggregateResourceBalances::add_fungible / add_non_fungible).  zero gives every resource its empty balance (and so its kind).
+RECURSIVE SumOf(_, _, _)
+SumOf(bs, r, i) == IF i > Len(bs) THEN 0 ELSE (IF bs[i].r = r THEN bs[i].bal.a ELSE 0) + SumOf(bs, r, i + 1)
+RECURSIVE UnionOf(_, _, _)
+UnionOf(bs, r, i) == IF i > Len(bs) THEN {} ELSE (IF bs[i].r = r THEN bs[i].bal.ids ELSE {}) \cup UnionOf(bs, r, i + 1)
+Aggregate(bs, zero) == [r \in DOMAIN zero |-> IF zero[r].kind = "f" THEN [kind |-> "f", a |-> SumOf(bs, r, 1)]
+                                              ELSE [kind |-> "nf", ids |-> UnionOf(bs, r, 1)]]
 
 -----------------------------------------------------------------------------
 \* VALIDITY (the documented rules of GeneralResourceConstraint and of the simple constraints)
